@@ -167,6 +167,23 @@ func C16(ctx *core.Ctx) int {
 			}
 		}
 	})
+	// call sequences through the exported C function: it is called many times by one long-lived host (an editor
+	// plug-in), and its answer for a text must not depend on the calls before. Alphabet: two valid texts (one
+	// already formatted, one not), two invalid texts, the empty text; every sequence of 2 (thorough: 3) calls in
+	// one process; oracle: the last call's answer = the answer of a process that makes only that call.
+	seqCalls := c16CallSequences(ctx, host, so, valid)
+	// several output flags naming one directory (shareddir.go)
+	var sharedRuns int64
+	core.Parallel(len(progs), func(i int) {
+		fam := familyOf(progs[i].Name)
+		if !(fam == "P5" || fam == "P6" || (fam == "P1" && (ctx.Thorough() || i%16 == 0))) {
+			return
+		}
+		n := sharedDirRuns(ctx, bin, progs[i], func(what, detail string, rep map[string]any) {
+			ctx.Report("compile|"+what, detail, rep)
+		})
+		atomic.AddInt64(&sharedRuns, int64(n))
+	})
 	compRuns, straced := c16Compile(ctx, bin, progs)
 	nd := 0
 	distinct.Range(func(k, v any) bool { nd++; return true })
@@ -179,11 +196,13 @@ func C16(ctx *core.Ctx) int {
 		"distinct_nontrivial": nd,
 		"rule": "texts = grammar derivations + E1 programs + invalid texts + repository samples through `format -d`, `format -f` and FormatPacketDslExport (real binary, real .so from a C host), compared with the library formatter; " +
 			"programs x all 64 subsets of output flags x {`compile ...`, bare flags} through the real binary, output trees compared byte for byte with the library generators applied in the same order to one model; strace of file-creating syscalls for 'nowhere else'. distinct_nontrivial = distinct library results",
-		"samples":              samples,
-		"texts":                len(texts),
-		"compile_runs":         compRuns,
-		"compile_runs_straced": straced,
-		"exhaustive":           true,
+		"samples":                      samples,
+		"texts":                        len(texts),
+		"compile_runs":                 compRuns,
+		"shared_output_directory_runs": sharedRuns,
+		"library_call_sequences":       seqCalls,
+		"compile_runs_straced":         straced,
+		"exhaustive":                   true,
 	}
 	ctx.Assumes = append(ctx.Assumes, "the binary is built with the map-order/clock seam pinned so that two compilations are comparable (C13 owns that nondeterminism); strace runs use the same binary",
 		"texts containing NUL are not passed through argv / C strings")
@@ -406,4 +425,75 @@ func writesOutside(trace, dir string, subset []string) []string {
 		}
 	}
 	return out
+}
+
+// c16CallSequences explores call sequences of FormatPacketDslExport inside one host process (see C16).
+func c16CallSequences(ctx *core.Ctx, host, so string, valid []Text) map[string]any {
+	var alphabet []c11Input
+	pretty := dsl.Render(dsl.Universal().Tokens(), dsl.Pretty)
+	if f, err := api.Format(pretty); err == nil {
+		alphabet = append(alphabet, c11Input{"valid, already formatted", f})
+	}
+	alphabet = append(alphabet, c11Input{"valid, one line", dsl.Render(dsl.Universal().Tokens(), dsl.OneLine)})
+	inv := invalidTexts(valid, false)
+	for i := 0; i < len(inv) && len(alphabet) < 4; i++ {
+		if !strings.Contains(inv[i].Text, "\x00") && strings.TrimSpace(inv[i].Text) != "" {
+			alphabet = append(alphabet, c11Input{"invalid: " + inv[i].Name, inv[i].Text})
+		}
+	}
+	alphabet = append(alphabet, c11Input{"empty text", ""})
+	depth := 2
+	if ctx.Thorough() {
+		depth = 3
+	}
+	dir := ctx.TempPath(".seq")
+	os.MkdirAll(dir, 0o755)
+	defer os.RemoveAll(dir)
+	files := make([]string, len(alphabet))
+	single := make([]cliResult, len(alphabet))
+	for i, a := range alphabet {
+		files[i] = filepath.Join(dir, fmt.Sprintf("t%d.dsl", i))
+		os.WriteFile(files[i], []byte(a.Text), 0o644)
+		single[i] = runCLI(dir, 60*time.Second, host, so, files[i])
+	}
+	var seqs [][]int
+	var rec func(cur []int)
+	rec = func(cur []int) {
+		if len(cur) >= 2 {
+			seqs = append(seqs, append([]int(nil), cur...))
+		}
+		if len(cur) == depth {
+			return
+		}
+		for i := range alphabet {
+			rec(append(cur, i))
+		}
+	}
+	rec(nil)
+	var evals int64
+	core.Parallel(len(seqs), func(k int) {
+		s := seqs[k]
+		last := s[len(s)-1]
+		if single[last].crashed {
+			return // C11
+		}
+		args := []string{so}
+		var names []string
+		for _, i := range s {
+			args = append(args, files[i])
+			names = append(names, alphabet[i].Name)
+		}
+		r := runCLI(dir, 60*time.Second, host, args...)
+		atomic.AddInt64(&evals, 1)
+		if r.crashed {
+			ctx.Report("C export|the host dies on a sequence of calls each of which is answered alone", strings.Join(names, " ; "), map[string]any{"sequence": names})
+			return
+		}
+		if r.stdout != single[last].stdout || r.exit != single[last].exit {
+			ctx.Report("C export|the answer for a text depends on the calls made before in the same process",
+				fmt.Sprintf("calls: %s\nanswer of the last call  %q\nanswer when called alone %q", strings.Join(names, " ; "), core.Trunc(r.stdout, 300), core.Trunc(single[last].stdout, 300)),
+				map[string]any{"sequence": names, "last_text": alphabet[last].Text})
+		}
+	})
+	return map[string]any{"alphabet": len(alphabet), "depth": depth, "sequences": len(seqs), "evaluations": evals}
 }
